@@ -371,8 +371,48 @@ def rule_P3_injective(ctx):
     (`S1` + `lo_f` and `S1_lo` + `f`) is not."""
     mod = ctx.repo.mod(SIMS)
     df = mod.method('Simulation', '_data_or_file')
-    fs = [n for n in ast.walk(df) if isinstance(n, ast.JoinedStr)]
-    ctx.anchor(len(fs) == 1, 'file-name f-string in _data_or_file')
+    joins = [c for c in au.calls(df) if ast.unparse(c.func) ==
+             'os.path.join' and len(c.args) >= 2]
+    ctx.anchor(len(joins) == 1, 'os.path.join(file_dir, <name>) in '
+               '_data_or_file')
+    ps_ = set(au.params(df)[1:])
+
+    def flat(e):
+        """Parts of an f-string with nested f-strings spliced in (None if
+        the expression is not a plain f-string of names)."""
+        if isinstance(e, ast.Constant) and isinstance(e.value, str):
+            return [e]
+        if not isinstance(e, ast.JoinedStr):
+            return None
+        out = []
+        for p_ in e.values:
+            if isinstance(p_, ast.FormattedValue) and isinstance(
+                    p_.value, (ast.JoinedStr,)):
+                sub = flat(p_.value)
+                if sub is None:
+                    return None
+                out.extend(sub)
+            else:
+                out.append(p_)
+        return out
+    vals = au.values_of(joins[0].args[-1], [df])
+    flats = [flat(v_) for v_ in vals]
+    verbatim = all(f_ is not None and all(
+        isinstance(p_, ast.Constant) or (isinstance(p_.value, ast.Name) and
+                                         p_.value.id in ps_ and
+                                         p_.conversion == -1 and
+                                         p_.format_spec is None)
+        for p_ in f_) for f_ in flats)
+    ctx.check('C11.P3.names', 'file name contains the keys unchanged',
+              verbatim, 'the file name is not simply made of what / source '
+              f'/ frequency (`{ast.unparse(vals[0])[:70]}`): keys that are '
+              'altered on the way (characters dropped or replaced, '
+              'truncated, lower-cased) can coincide for different tasks, '
+              'which then share one input and one output file',
+              ctx.where(mod, joins[0]))
+    fs = [ast.JoinedStr(flats[0])] if flats and flats[0] else [
+        n for n in ast.walk(df) if isinstance(n, ast.JoinedStr)]
+    ctx.anchor(len(fs) >= 1, 'file-name f-string in _data_or_file')
     parts = fs[0].values
     seps = [p.value for p in parts if isinstance(p, ast.Constant)]
     nvar = sum(isinstance(p, ast.FormattedValue) for p in parts)
